@@ -695,7 +695,7 @@ def root_index(snap, idx):
 REF_ARG_KEYS = ("t", "x", "y", "p", "d", "parent")
 # ops that must not change any pre-existing object at all
 OBSERVERS = ("clone", "clone_twice", "export_leaf", "template_clone", "get_values", "hold_list", "validate", "doc_validate",
-             "validate_custom", "validate_keep", "validate_rerun", "validate_optional", "save", "load", "restart", "advance", "damage_file")
+             "validate_custom", "validate_keep", "validate_rerun", "validate_optional", "save", "load", "restart", "advance", "damage_file", "reseed")
 
 
 def footprint(ctx):
@@ -821,6 +821,12 @@ def mon_copy(ctx):
                         (kind_of(orig), shared[:2]))
             if len(set(ids_b)) != len(ids_b):
                 return ("copy.ids", "ids inside the clone are not pairwise distinct")
+            # "fresh": held by no other object the session has seen (an earlier copy included)
+            mine = set(id(o) for o in b_objs)
+            for j, other in enumerate(U.objs):
+                if id(other) not in mine and kind_of(other) != "other" and other.id in ids_b:
+                    return ("copy.ids", "the clone without keep_id carries the id %s of obj#%d, "
+                            "which is no part of it" % (other.id, j))
     if ctx.name == "clone_twice":
         first = U.objs[ctx.outcome[1]["new"]]
         again = U.objs[ctx.outcome[1]["again"]]
